@@ -190,7 +190,20 @@ def load_findings():
     if not os.path.exists(p):
         return []
     with open(p) as f:
-        return json.load(f).get('findings', [])
+        out = json.load(f).get('findings', [])
+    # staging area used while a finding is being triaged: findings/<ID>.json (one entry per file); consolidated
+    # into known_findings.json before a commit
+    import glob
+    seen = {x['id'] for x in out}
+    for q in sorted(glob.glob(os.path.join(VERIF, 'findings', '*.json'))):
+        try:
+            with open(q) as f:
+                e = json.load(f)
+            if e.get('id') not in seen:
+                out.append(e)
+        except Exception:
+            pass
+    return out
 
 
 def open_findings(pid):
